@@ -17,8 +17,10 @@ RULE = ("Decimals: all sign x <=4 significant digits x exponent -8..8 (thorough;
 ASSUMPTIONS = ["Python int()/str()/float()/repr()/Decimal()/datetime are runtime (trusted, covered by correspondence)"]
 PARTIAL = [
     {"theorem": "float round trip", "missing": "Python float repr/parse is runtime; covered by correspondence only"},
-    {"theorem": "datetime_roundtrip", "missing": "isoformat -> parse round trip is proved for time-of-day and "
-     "timezone; the date part relies on the correspondence (Nat.toDigits padding lemmas not proved)"},
+    {"theorem": "datetime_roundtrip beyond isoformat texts", "missing": "date_roundtrip / time_roundtrip / "
+     "datetime_roundtrip prove parse(isoformat(v)) = v for every valid date, time of day and offset below 24 h; "
+     "that Python's isoformat() is the modelled isoDate/isoTime/isoDateTime is the correspondence; other lexical "
+     "forms of the same value (no padding, fraction digits beyond six) are covered by the per-rule theorems"},
 ]
 TRUSTED = ["Python decimal/datetime/fractions as value oracles"]
 
